@@ -232,7 +232,7 @@ func (e *sizeEval) msizeDerived(m *ServerModel, fi *FuncInfo, ex ast.Expr, need 
 		}
 		s := strings.ReplaceAll(e.r.L.str(x), " ", "")
 		srcs = append(srcs, s)
-		if strings.HasPrefix(s, "atomic.LoadUint32(&") && strings.HasSuffix(s, ".messageSize)") {
+		if strings.HasPrefix(s, "atomic.LoadUint32(&") && strings.HasSuffix(s, ".messageSize)") || strings.HasSuffix(s, ".messageSize.Load()") {
 			return true
 		}
 		if strings.HasSuffix(s, ".messageSize") {
